@@ -179,9 +179,33 @@ func genCase(t *rapid.T) caseSpec {
 	c.StatsZero = rapid.IntRange(0, 2).Draw(t, "statszero") == 1
 	c.NoEmpty1 = rapid.IntRange(0, 1).Draw(t, "noemptyfirst") == 1
 
+	// wide cases: more than 100 distinct keys and limits around and above 100 (the cap goProbe applies to the
+	// partial results of a streaming query), keys and counters derived from a few draws
+	wide := rapid.IntRange(0, 5).Draw(t, "wide") == 0
+	if wide {
+		c.Limit = rapid.SampledFrom([]uint64{99, 100, 101, 150, 250, 1000}).Draw(t, "widelimit")
+		n := rapid.IntRange(101, 320).Draw(t, "poolsize")
+		for i := 0; i < n; i++ {
+			k := keySpec{SIP: fmt.Sprintf("10.%d.%d.%d", 8+i/65536, (i/256)%256, i%256)}
+			if strings.Contains(q.q, "dip") {
+				k.DIP = dips[i%len(dips)]
+			}
+			if q.dport {
+				k.Dport, k.Proto = uint16(1+i%7), 6
+			}
+			if q.time {
+				k.TS = tsPool[i%len(tsPool)]
+			}
+			if q.iface {
+				k.Iface = ifPool[i%len(ifPool)]
+			}
+			c.Keys = append(c.Keys, k)
+		}
+	}
+
 	// key pool: distinct keys of the shape the query produces
 	seen := map[keySpec]bool{}
-	for len(c.Keys) < 8 {
+	for !wide && len(c.Keys) < 8 {
 		k := keySpec{SIP: rapid.SampledFrom(sips).Draw(t, "sip")}
 		if strings.Contains(q.q, "dip") {
 			k.DIP = rapid.SampledFrom(dips).Draw(t, "dip")
@@ -220,7 +244,16 @@ func genCase(t *rapid.T) caseSpec {
 			c.Hosts = append(c.Hosts, h)
 			continue
 		}
-		if h.Kind == kindRows {
+		if h.Kind == kindRows && wide {
+			nr := rapid.IntRange(len(c.Keys)/2, len(c.Keys)).Draw(t, l+"nrows")
+			start := rapid.IntRange(0, len(c.Keys)-1).Draw(t, l+"start")
+			mul := rapid.Uint64Range(1, 1000).Draw(t, l+"mul")
+			for r := 0; r < nr; r++ {
+				v := (uint64(r)*7919 + mul*uint64(i+1)) % 1009
+				h.Rows = append(h.Rows, rowSpec{Key: (start + r) % len(c.Keys), C: ctr{v * 40, (v * mul) % 977 * 64, v, (v * mul) % 977}})
+			}
+			h.StatusCode = string(types.StatusOK)
+		} else if h.Kind == kindRows {
 			nr := rapid.IntRange(1, 5).Draw(t, l+"nrows")
 			// a subset of the pool: start + stride walk keeps the keys of one host distinct
 			start := rapid.IntRange(0, len(c.Keys)-1).Draw(t, l+"start")
@@ -854,6 +887,12 @@ func TestC15OrderIndependence(t *testing.T) {
 		}
 		if uint64(ref.nMergedAll) > stmt.NumResults {
 			classes = append(classes, "rows:limit-cuts")
+		}
+		if ref.nMergedAll > 100 {
+			classes = append(classes, "rows:more-than-100-merged")
+			if stmt.NumResults > 100 {
+				classes = append(classes, "rows:limit-above-streaming-cap")
+			}
 		}
 		if ref.nMergedAll == 0 {
 			classes = append(classes, "rows:none")
